@@ -326,7 +326,7 @@ func (c *child) violationZ(key, desc string, tagged []byte) {
 func (c *child) compressedFrames(inners [][]byte) {
 	const mib = 1 << 20
 	n := 0
-	for _, t := range []int{0, 1, 256} {
+	for _, t := range []int{0, 1, 64, 256} {
 		dz := c.zDecoder(t)
 		for _, inner := range inners {
 			bigger := append(append([]byte(nil), inner...), make([]byte, 100)...)
